@@ -495,6 +495,17 @@ package server
 //@   ensures success-has-a-connection: err == nil ==> conn != nil
 //@   ensures failure-has-none: err != nil ==> conn == nil
 //@   ensures local-exactly-one-way: viaLocal != viaRemote
+//@   ghost recvd int = 0
+//@   ghost rerr error = nil
+//@   ghost gst protocol.TunnelStatusCode = 0
+//@   ghost asked int = 0
+//@   at call GetStatus#1: assert the-status-read-is-the-received-one: callarg0 == status && recvd == 1 && rerr == nil
+//@   at after call GetStatus#1: ghost gst := callresult
+//@   at after call GetStatus#1: ghost asked := asked + 1
+//@   at after call BoundedReceive#1: ghost rerr := callresult
+//@   at after call BoundedReceive#1: ghost recvd := recvd + 1
+//@   ensures local-a-proxied-stream-is-handed-out-only-after-the-remote-node-answered-ok: (viaRemote && err == nil) ==> (recvd == 1 && rerr == nil && asked == 1 && gst == protocol.TunnelStatusCode_STATUS_OK)
+//@   ensures local-a-remote-no-direct-answer-means-not-connected: (viaRemote && asked == 1 && gst == protocol.TunnelStatusCode_NO_DIRECT) ==> err == tun.ErrTunnelClientNotConnected
 
 //@ func (s *Server) DialClient(ctx context.Context, link *protocol.Link) (conn net.Conn, err error)
 //@   safety off
